@@ -126,7 +126,11 @@ func preBlock(fw *formatWriter, source []byte, cursor *commonmark.Cursor) (child
 		fw.s("[")
 		fw.s(curr.Child(0).Inline().LinkReference())
 		fw.s("]: ")
-		fw.s(commonmark.NormalizeURI(curr.Child(1).Inline().Text(source)))
+		if dst := commonmark.NormalizeURI(curr.Child(1).Inline().Text(source)); dst != "" {
+			fw.s(dst)
+		} else {
+			fw.s("<>")
+		}
 		if curr.ChildCount() > 2 {
 			fw.s(` "`)
 			fw.s(curr.Child(2).Inline().Text(source))
